@@ -288,32 +288,61 @@ theorem sig_field_no_panic (valid : Bytes → Bool) (s : Bytes) : sigFromHex val
 
 /-! ## the API's printable output (`api/src/types.rs`) -/
 
-/-- The reader of `OutputPrintable` takes its panic branch EXACTLY when the five keys it tests are
-there and `block_height` is not (`block_height.unwrap()` on a key the `is_none()` test forgot).
-The property "no API decoder panics" is false for this reader as transliterated; on the real code:
-`serapi probe`. -/
-theorem outputPrintable_panics_iff (k : OpKeys) :
-    outputPrintableFinish k = .panic
+/-- The reader of `OutputPrintable` has no panic branch, for every set of keys (since repair f960854e0
+of finding C11-outputprintable-missing-block-height-panics) … -/
+theorem outputPrintable_no_panic (k : OpKeys) : outputPrintableFinish k ≠ .panic := by
+  unfold outputPrintableFinish
+  split <;> (intro h; cases h)
+
+/-- … it accepts exactly the objects that have output_type, commit, spent, proof_hash and mmr_index
+(`block_height`, `proof`, `merkle_proof` are optional) and refuses all others -/
+theorem outputPrintable_ok_iff (k : OpKeys) :
+    outputPrintableFinish k = .ok
+      ↔ (k.outputType = true ∧ k.commit = true ∧ k.spent = true ∧ k.proofHash = true ∧ k.mmrIndex = true) := by
+  obtain ⟨a, b, c, d, e, f, g, h⟩ := k
+  cases a <;> cases b <;> cases c <;> cases e <;> cases h <;> simp [outputPrintableFinish]
+
+theorem outputPrintable_err_iff (k : OpKeys) :
+    outputPrintableFinish k = .err
+      ↔ ¬ (k.outputType = true ∧ k.commit = true ∧ k.spent = true ∧ k.proofHash = true ∧ k.mmrIndex = true) := by
+  obtain ⟨a, b, c, d, e, f, g, h⟩ := k
+  cases a <;> cases b <;> cases c <;> cases e <;> cases h <;> simp [outputPrintableFinish]
+
+/-- what the unrepaired reader did: it panicked EXACTLY when the five tested keys were there and
+`block_height` was not (the four witnesses are replayed by the `api` run as regression probes) -/
+theorem outputPrintable_unrepaired_panic_iff (k : OpKeys) :
+    outputPrintableFinishUnrepaired k = .panic
       ↔ (k.outputType = true ∧ k.commit = true ∧ k.spent = true ∧ k.proofHash = true ∧ k.mmrIndex = true
           ∧ k.blockHeight = false) := by
   obtain ⟨a, b, c, d, e, f, g, h⟩ := k
-  cases a <;> cases b <;> cases c <;> cases e <;> cases f <;> cases h <;> simp [outputPrintableFinish]
+  cases a <;> cases b <;> cases c <;> cases e <;> cases f <;> cases h <;> simp [outputPrintableFinishUnrepaired]
 
-/-- the witness: every key but `block_height` -/
-example : outputPrintableFinish ⟨true, true, true, true, true, false, true, true⟩ = .panic := by decide
+example : outputPrintableFinishUnrepaired ⟨true, true, true, true, true, false, true, true⟩ = .panic
+    ∧ outputPrintableFinish ⟨true, true, true, true, true, false, true, true⟩ = .ok := by decide
 
-/-- `proof` and `merkle_proof` are optional, and with all six others present the value is returned -/
-theorem outputPrintable_ok_iff (k : OpKeys) :
-    outputPrintableFinish k = .ok
-      ↔ (k.outputType = true ∧ k.commit = true ∧ k.spent = true ∧ k.proofHash = true ∧ k.mmrIndex = true
-          ∧ k.blockHeight = true) := by
-  obtain ⟨a, b, c, d, e, f, g, h⟩ := k
-  cases a <;> cases b <;> cases c <;> cases e <;> cases f <;> cases h <;> simp [outputPrintableFinish]
+/-- `OutputPrintable::range_proof()` has no panic branch, for every proof field (since repair 5eec0a242
+of finding C11-outputprintable-short-proof-panics) … -/
+theorem rangeProofHelper_no_panic (p : Option Bytes) : rangeProofHelper p ≠ .panic := by
+  cases p with
+  | none => intro h; cases h
+  | some s =>
+    have hnp := GV.Dec.utilFromHex_noPanic s
+    cases hu : utilFromHex s with
+    | ok b =>
+      by_cases hl : b.length < MAX_PROOF
+      · simp only [rangeProofHelper, ofHex, hu, hl, ↓reduceIte]
+        intro hc; cases hc
+      · simp only [rangeProofHelper, ofHex, hu, hl, ↓reduceIte]
+        intro hc; cases hc
+    | err =>
+      simp only [rangeProofHelper, ofHex, hu]
+      intro hc; cases hc
+    | panic st => exact absurd hu (hnp st)
 
-/-- `OutputPrintable::range_proof()` panics EXACTLY when the proof string is hex of fewer than 675
-bytes (`&p_vec[..675]`); `serapi probe` on the real code -/
-theorem rangeProofHelper_panics_iff (p : Option Bytes) :
-    rangeProofHelper p = .panic ↔ ∃ s b, p = some s ∧ utilFromHex s = .ok b ∧ b.length < MAX_PROOF := by
+/-- … it returns a proof exactly for hex of at least 675 bytes (the first 675 of them) … -/
+theorem rangeProofHelper_ok_iff (p : Option Bytes) (v : Bytes) :
+    rangeProofHelper p = .ok v
+      ↔ ∃ s b, p = some s ∧ utilFromHex s = .ok b ∧ MAX_PROOF ≤ b.length ∧ v = b.take MAX_PROOF := by
   cases p with
   | none => simp [rangeProofHelper]
   | some s =>
@@ -321,9 +350,52 @@ theorem rangeProofHelper_panics_iff (p : Option Bytes) :
     cases hu : utilFromHex s with
     | ok b =>
       by_cases hl : b.length < MAX_PROOF
-      · simp only [rangeProofHelper, ofHex, hu, hl, ↓reduceIte, true_iff]
-        exact ⟨s, b, rfl, hu, hl⟩
       · simp only [rangeProofHelper, ofHex, hu, hl, ↓reduceIte]
+        constructor
+        · intro h; cases h
+        · rintro ⟨s', b', hs, hb', hl', _⟩
+          cases hs
+          rw [hu] at hb'
+          cases hb'
+          omega
+      · simp only [rangeProofHelper, ofHex, hu, hl, ↓reduceIte, FieldRes.ok.injEq]
+        constructor
+        · intro h
+          exact ⟨s, b, rfl, hu, by omega, h.symm⟩
+        · rintro ⟨s', b', hs, hb', _, hv⟩
+          cases hs
+          rw [hu] at hb'
+          cases hb'
+          exact hv.symm
+    | err =>
+      simp only [rangeProofHelper, ofHex, hu]
+      constructor
+      · intro h; cases h
+      · rintro ⟨s', b', hs, hb', _⟩
+        cases hs
+        rw [hu] at hb'
+        cases hb'
+    | panic st => exact absurd hu (hnp st)
+
+/-- … and refuses a shorter one -/
+theorem rangeProofHelper_refuses_short (s b : Bytes) (h : utilFromHex s = .ok b) (hl : b.length < MAX_PROOF) :
+    rangeProofHelper (some s) = .err := by
+  simp [rangeProofHelper, ofHex, h, hl]
+
+/-- what the unrepaired helper did: it panicked EXACTLY when the proof string was hex of fewer than
+675 bytes (`&p_vec[..675]`) -/
+theorem rangeProofHelper_unrepaired_panic_iff (p : Option Bytes) :
+    rangeProofHelperUnrepaired p = .panic ↔ ∃ s b, p = some s ∧ utilFromHex s = .ok b ∧ b.length < MAX_PROOF := by
+  cases p with
+  | none => simp [rangeProofHelperUnrepaired]
+  | some s =>
+    have hnp := GV.Dec.utilFromHex_noPanic s
+    cases hu : utilFromHex s with
+    | ok b =>
+      by_cases hl : b.length < MAX_PROOF
+      · simp only [rangeProofHelperUnrepaired, ofHex, hu, hl, ↓reduceIte, true_iff]
+        exact ⟨s, b, rfl, hu, hl⟩
+      · simp only [rangeProofHelperUnrepaired, ofHex, hu, hl, ↓reduceIte]
         constructor
         · intro h; cases h
         · rintro ⟨s', b', hs, hb', hl'⟩
@@ -332,7 +404,7 @@ theorem rangeProofHelper_panics_iff (p : Option Bytes) :
           cases hb'
           exact absurd hl' hl
     | err =>
-      simp only [rangeProofHelper, ofHex, hu]
+      simp only [rangeProofHelperUnrepaired, ofHex, hu]
       constructor
       · intro h; cases h
       · rintro ⟨s', b', hs, hb', _⟩
